@@ -759,6 +759,79 @@ class MonC13(Monitor):
                 fails.append(self.F("name-twice-when-parametrized", "a channel name was declared twice (parametrized)", op="declare_channel"))
             except Exception:  # noqa: BLE001
                 pass
+        fails += self.parametrized_eom_walk(ls)
+        return fails
+
+    _EOM_DEV = None
+
+    def parametrized_eom_walk(self, ls):
+        """The EOM typestate while the calls are only stored: a random walk over two EOM-capable channels
+        and one without EOM on a parametrized sequence; every verdict is predicted from a shadow that is
+        updated from the accepted calls only."""
+        import random
+        from realcode import Dev
+        from pulser import Sequence as _Seq
+
+        fails = []
+        if MonC13._EOM_DEV is None:
+            from gen import gen_eom
+
+            r0 = random.Random(7)
+            def ch(local, eom):
+                c = dict(kind="rydberg", local=local, clock_period=4, min_duration=16, mod_bandwidth=4,
+                         max_duration=100000000, custom_phase_jump_time=None, max_amp=31.4, max_abs_detuning=125.6)
+                if local:
+                    c.update(min_retarget_interval=220, fixed_retarget_t=0, max_targets=2)
+                if eom:
+                    c["eom"] = gen_eom(r0)
+                return c
+            MonC13._EOM_DEV = Dev(dict(channels=[ch(False, True), ch(True, True), ch(False, False)], dmms=[], nq=2,
+                                       reusable=True, max_seq=None))
+        dev = MonC13._EOM_DEV
+        rng = random.Random(len(ls.steps) * 7919 + ls.nref)
+        with warnings.catch_warnings():
+            warnings.simplefilter("ignore")
+            try:
+                seq = _Seq(dev.register, dev.device)
+                names = ["e0", "e1", "n2"]
+                has_eom = {"e0": True, "e1": True, "n2": False}
+                seq.declare_channel("e0", dev.chan_ids[0])
+                seq.declare_channel("e1", dev.chan_ids[1], initial_target=dev.qids[0])
+                seq.declare_channel("n2", dev.chan_ids[2])
+                if rng.random() < 0.5:       # EOM entered before the sequence becomes parametrized
+                    seq.enable_eom_mode("e0", 1.0, 0.0)
+                var = seq.declare_variable("w", dtype=int)
+                seq.delay(var, "n2")
+            except Exception:  # noqa: BLE001
+                return fails
+            in_eom = {n: bool(seq.is_in_eom_mode(n)) for n in names}
+            for _ in range(14):
+                n = rng.choice(names)
+                kind = rng.choice(["enable", "disable", "add", "add_eom", "modify"])
+                calls = {
+                    "enable": lambda: seq.enable_eom_mode(n, 1.0, 0.0),
+                    "disable": lambda: seq.disable_eom_mode(n),
+                    "add": lambda: seq.add(Pulse.ConstantPulse(var, 1.0, 0.0, 0.0), n),
+                    "add_eom": lambda: seq.add_eom_pulse(n, var, 0.0),
+                    "modify": lambda: seq.modify_eom_setpoint(n, 2.0, 0.0),
+                }
+                want_ok = {"enable": has_eom[n] and not in_eom[n], "disable": in_eom[n], "add": not in_eom[n],
+                           "add_eom": in_eom[n], "modify": in_eom[n]}[kind]
+                try:
+                    calls[kind]()
+                    ok = True
+                except Exception:  # noqa: BLE001
+                    ok = False
+                if ok != want_ok:
+                    fails.append(self.F("eom-typestate-when-parametrized",
+                                        f"{kind} on {n} ({'in' if in_eom[n] else 'not in'} EOM mode, other channels "
+                                        f"{ {m: in_eom[m] for m in names if m != n} }) was "
+                                        f"{'accepted' if ok else 'refused'}", op=kind, accepted=ok))
+                    break
+                if ok and kind == "enable":
+                    in_eom[n] = True
+                elif ok and kind == "disable":
+                    in_eom[n] = False
         return fails
 
 
